@@ -293,6 +293,24 @@ impl Run {
             }
             std::process::exit(0);
         }
+        // --replay <file>: the enumeration is deterministic, so a witness is replayed by re-running the check
+        // and looking for the recorded signature (its minimal witness is found first again)
+        if let Some(file) = &self.replay_mode {
+            let want = std::fs::read_to_string(file).ok().and_then(|t| serde_json::from_str::<Value>(&t).ok()).and_then(|v| v["signature"].as_str().map(|s| s.to_string()));
+            let Some(want) = want else { machinery_exit(&format!("cannot read a signature from {file}")) };
+            match sigs.get(&want) {
+                Some(sig) => {
+                    println!("VIOLATION property={} replay={}", self.property, file);
+                    println!("  reproduced: clause={} occurrences={} {}", sig.first.clause, sig.count, sig.first.what);
+                    println!("  witness: {}", serde_json::to_string(&sig.first.witness).unwrap_or_default().chars().take(2000).collect::<String>());
+                    std::process::exit(1);
+                }
+                None => {
+                    println!("REPLAY property={} signature not reproduced on this tree: {}", self.property, want);
+                    std::process::exit(if merrs.is_empty() { 0 } else { 2 });
+                }
+            }
+        }
         let mut known_seen: BTreeMap<usize, u64> = BTreeMap::new();
         let mut unlisted: Vec<(&String, &Sig)> = Vec::new();
         for (key, sig) in &sigs {
